@@ -148,8 +148,8 @@ def cases(tier, seed):
     # so that probes cached outside a block are never used inside it and probes cached inside never survive it
     dp = "settings.deterministic_probes"
     side = [
-        ([[dp, [True]], [dp, [False]]], single_budget, 2),
-        ([[dp, [True]], ["settings._fast_solves", [False]]], pair_budget + 1, 2),
+        ([[dp, [True]], [dp, [False]]], min(single_budget, 7), 2),  # (the cache event widens the alphabet: one event less than the
+        ([[dp, [True]], ["settings._fast_solves", [False]]], min(pair_budget + 1, 6), 2),  # plain thorough programs keeps the tier's run time)
         ([[dp, [True]], ["settings.fast_computations", [False, True, False]]], pair_budget, 1),
     ]
     for specs, b, objs in side:
@@ -171,7 +171,7 @@ def bounds(tier):
         "nesting_depth": 3,
         "classes": [c["name"] for c in catalogue()],
         "exit_kinds": ["normal", "exception raised inside the block"],
-        "side_state": "deterministic_probes.probe_vectors with a 'probes cached' environment event at every position",
+        "side_state": "deterministic_probes.probe_vectors with a 'probes cached' environment event at every position (<= 6 events quick, <= 7 thorough)",
     }
 
 
